@@ -38,6 +38,7 @@ pub fn value_expr(v: &Val, ty: &str) -> String {
             }
         }
         Val::U(x) => format!("{x}"),
+        Val::F32(b) if ty == "FBox" => format!("FBox(f32::from_bits(0x{b:08x}))"),
         Val::F32(b) => {
             let f = f32::from_bits(*b);
             if f.is_nan() {
@@ -385,6 +386,9 @@ pub fn ufn_path(f: UFn, inner: Inner) -> String {
         UFn::Dup => "dup",
         UFn::SortDedup => "sort_dedup",
         UFn::PointAbsY => "point_abs_y",
+        UFn::FBoxAbs => "fbox_abs",
+        UFn::OrAnon => "or_anon",
+        UFn::FBoxSmall => "fbox_small",
         UFn::IsEven => "is_even",
         UFn::CIsEven => match inner {
             Inner::Int(IntTy::I32) => "c_is_even_i32",
